@@ -9,24 +9,35 @@ contains two of the three potential qubits of an adjacent triangle, and the sele
 triangle loop (number of keys, magnetic / electric boundary bands, `em_edge`, `constant_z`) is shown
 to keep a two-key triangle only where both cubes that would see a single key of it are absent —
 whose logical pair (the sheet `z = 4` of X, the line `(2Lx−1, 2Ly−2, ·)` of Z) commutes with the
-generators and anticommutes with each other; `n` in closed form, `k = 1`; `get_deformation` follows
-the stated rule.
+generators and anticommutes with each other; `n` and `n_stabilizers` in closed form, `k = 1`;
+`get_deformation` follows the stated rule.
 
-RANK CLAUSE.  The GF(2) rank of the generators is `n − k` for most sizes of the family but NOT for
-all (recorded known finding): when the hole is one layer thin in one direction and at least four
-unit cells wide in the two others — `Lx = 3 ∧ Ly ≥ 6 ∧ Lz ≥ 6`, or `Ly = 4 ∧ Lx ≥ 5 ∧ Lz ≥ 6`, or
-`Lz = 4 ∧ Lx ≥ 5 ∧ Ly ≥ 6` — the rank is smaller (by `⌈ab/2⌉` with `a, b` the two wide hole
-dimensions minus one, measured on `Lx ≤ 7`, `Ly, Lz ≤ 9`): the code then encodes additional qubits
-that the class does not declare.  PROVED for every size of the three thin families
-(`thin_hole_family_x / _y / _z`: an undeclared second logical pair, hence rank `≤ n − 2`; the smallest
-case `(3, 6, 6)` also as the instance `thin_hole_rank_deficient`); that all OTHER sizes of the family
-have rank `n − k` is measured (every size with `Lx ≤ 7`, `Ly, Lz ≤ 9`, `n ≤ 900`), not proved.  The rank clause is therefore stated for instances only
-(`Properties/C01.lean`, `valid_HollowRhombicCode_partial`: every size of the family with
-`L_i ≤ 4`), not for all sizes.
+RANK CLAUSE.  The GF(2) rank of the generators is `n − k` for most sizes of the family but NOT for all
+(recorded known finding).  `Deficient Lx Ly Lz` — the hole is one layer of edges thin in one direction
+and at least two unit cells wide in the two others: `Lx = 3 ∧ Ly ≥ 6 ∧ Lz ≥ 6`, or `Ly = 4 ∧ Lx ≥ 5 ∧ Lz ≥ 6`,
+or `Lz = 4 ∧ Lx ≥ 5 ∧ Ly ≥ 6` — is the exact set of sizes with a smaller rank (measured on every size with
+`Lx ≤ 7`, `Ly, Lz ≤ 9`, `n ≤ 900`: 332 sizes, 40 deficient, deficit `⌈ab/2⌉` with `a, b ≥ 1` the numbers of
+unit cells of the thin hole in its two wide directions).
+NEGATIVE SIDE, proved for EVERY deficient size (`deficient_not_valid`; the three families
+`thin_hole_family_x / _y / _z`; instance `thin_hole_rank_deficient`): an undeclared second logical pair,
+hence rank `≤ n − 2`, not a valid `[[n, 1]]` code.
+POSITIVE SIDE, proved for EVERY size of the family that is not deficient (`valid_code`): `rankFamily`
+(all cubes; the triangles selected by `selTri`: the family of `RhombicPlanarCode` restricted to the
+listed triangles, plus the triangles of axis 1 at the vertices next to the hole and the lower
+triangles of axis 0 under the hole edges `(3, ·, 3)`, `(·, 3, 3)` and along the hole edge `(3, 3, ·)`) is
+independent for EVERY size (`generators_independent`: triangular family of probes, single qubits and
+four families of two- and three-qubit probes) and has `n − 1` members for every non-deficient size
+(`generators_count`: partition of the selected triangles into boxes of arithmetic progressions,
+checkerboard counts) — all four clauses of C01, rank included.
+Together (`valid_iff_not_deficient`, `rank_iff_not_deficient`): a size of the supported family is a
+valid `[[n, 1]]` code, and its generators have rank `n − 1`, IFF it is not deficient.
 -/
 import PanqecVerif.Proofs.LatHollowRhombicCodeThinA
 import PanqecVerif.Proofs.LatHollowRhombicCodeThinB
 import PanqecVerif.Proofs.LatHollowRhombicCodeThinC
+import PanqecVerif.Proofs.LatHollowRhombicCodeRankF
+import PanqecVerif.Proofs.LatHollowRhombicCodeRankQ
+import PanqecVerif.Proofs.Lat2DRankSubset
 
 namespace Panqec.C01HollowRhombicCode
 open Panqec.HollowRhombicCode Panqec.Color
@@ -232,6 +243,207 @@ theorem thin_hole_family_z (Lx Ly : Nat) (hx : 5 ≤ Lx) (hy : 6 ≤ Ly) :
   ⟨⟨by omega, by omega, by decide⟩,
     rankDeficient_of (commPair Lx Ly 4 ⟨by omega, by omega, by decide⟩) (ThinC.rank_le hx hy)⟩
 
+/-- THE EXACT SET OF RANK-DEFICIENT SIZES (measured on the implementation: GF(2) rank of
+    `stabilizer_matrix` against `n − k` for every size of the family with `Lx ≤ 7`, `Ly, Lz ≤ 9`,
+    `n ≤ 900` — 332 sizes, 40 of them deficient, exactly the ones below; the positive theorem
+    `valid_code`, `deficient_not_valid` and `valid_iff_not_deficient` are the proof: `Deficient` is exact).  The hole of the class has
+    `(Lx − 3) × (Ly − 4) × (Lz − 4)` vertices and is one layer of edges thin in `x` for `Lx = 3`, in `y` for
+    `Ly = 4`, in `z` for `Lz = 4`; a size is deficient iff the hole is thin in one direction and at least
+    two unit cells wide in the other two: with `a, b` the numbers of unit cells of the thin hole in the
+    two wide directions (`(Ly − 5, Lz − 5)`, `(Lx − 4, Lz − 5)`, `(Lx − 4, Ly − 5)`), `a, b ≥ 1`, the measured
+    deficit is `⌈a·b / 2⌉` -/
+def Deficient (Lx Ly Lz : Nat) : Prop :=
+  (Lx = 3 ∧ 6 ≤ Ly ∧ 6 ≤ Lz) ∨ (Ly = 4 ∧ 5 ≤ Lx ∧ 6 ≤ Lz) ∨ (Lz = 4 ∧ 5 ≤ Lx ∧ 6 ≤ Ly)
+
+instance (Lx Ly Lz : Nat) : Decidable (Deficient Lx Ly Lz) := by unfold Deficient; infer_instance
+
+/-- a deficient size is a size of the supported family -/
+theorem deficient_family {Lx Ly Lz : Nat} (h : Deficient Lx Ly Lz) : Family Lx Ly Lz := by
+  unfold Deficient at h; unfold Family; omega
+
+/-- NEGATIVE SIDE, EVERY DEFICIENT SIZE (recorded known finding): commutation and pairing hold, but
+    an undeclared second logical pair exists, every independent family of generators has at most
+    `n − 2` members and the class is not a valid `[[n, 1]]` code (the three thin-hole families
+    together) -/
+theorem deficient_not_valid (Lx Ly Lz : Nat) (h : Deficient Lx Ly Lz) :
+    RankDeficient (lattice Lx Ly Lz) := by
+  rcases h with ⟨rfl, hy, hz⟩ | ⟨rfl, hx, hz⟩ | ⟨rfl, hx, hy⟩
+  · exact (thin_hole_family_x Ly Lz hy hz).2
+  · exact (thin_hole_family_y Lx Lz hx hz).2
+  · exact (thin_hole_family_z Lx Ly hx hy).2
+
+/-! ### the positive side of the rank clause -/
+
+/-- THE INDEPENDENT FAMILY (operator level, EVERY size with `Ly ≥ 1`, deficient sizes included): the
+    members of `rankFamily` — all cubes; all triangles of axis 3 and 2; of axis 1 those at a vertex
+    where the triangle of axis 3 or 2 is not listed (the row `y = 2Ly−2` and the vertices next to the
+    hole); of axis 0 those of the last column `x = 2Lx−2`, the upper one (`(x+y+z) % 4 = 2`, `z ≥ 2`) of
+    the two that share a z edge, the lower one where the upper one is not listed, and the lower ones
+    `(0, 2, 2, z)`, `z % 4 = 0`, `8 ≤ z ≤ 2Lz−6`, along the hole edge `x = y = 3` when `Lx, Ly ≥ 4` or `Lx = 3`,
+    `Ly ≥ 5`, and for `Lz = 4` the lower ones `(0, 2, y, 2)` under the hole edge `(3, ·, 3)` (`Lx = 4`, `Ly ≥ 5`) or
+    `(0, x, 2, 2)` under the hole edge `(·, 3, 3)` (`Ly = 5`, `Lx ≥ 5`) — are independent: every non-empty
+    duplicate-free sub-family has a Pauli operator on the qubits anticommuting with an odd number of
+    its members (a triangular family of probes: single qubits, and `X(3,2,z) X(4,2,z−1) X(3,2,z−2)` /
+    `X(2,3,z) X(2,4,z−1) X(2,3,z−2)` / `X(3,y,2) X(4,y−1,2) X(3,y−2,2)` / `X(x,3,2) X(x−1,4,2)` for the kept
+    lower triangles) -/
+theorem generators_independent (Lx Ly Lz : Nat) (hy : 1 ≤ Ly) :
+    Lat2D.IndepGenerators (lattice Lx Ly Lz) (rankFamily Lx Ly Lz) :=
+  indep_rankFamily Lx Ly Lz hy
+
+/-- the family consists of distinct stabilizer locations (every size) -/
+theorem generators_listed (Lx Ly Lz : Nat) :
+    (rankFamily Lx Ly Lz).Nodup ∧ ∀ s ∈ rankFamily Lx Ly Lz, s ∈ (lattice Lx Ly Lz).stabs :=
+  ⟨nodup_rankFamily Lx Ly Lz, fun _ hs => rankFamily_sub hs⟩
+
+/-- the regimes in which the family is counted: no hole or a hole one layer thin in two directions
+    (`NoHole`: `_is_in_hole` is never true on a vertex, a leg or a corner); a hole at least two layers
+    thick in every direction; the seven one-parameter families of sizes whose hole is thin in one
+    direction and that are not deficient -/
+def Covered (Lx Ly Lz : Nat) : Prop :=
+  NoHole Lx Ly Lz ∨ (4 ≤ Lx ∧ 5 ≤ Ly ∧ 5 ≤ Lz) ∨ (Lx = 3 ∧ 4 ≤ Ly ∧ Lz = 5) ∨ (Lx = 3 ∧ Ly = 4 ∧ 5 ≤ Lz) ∨
+  (Lx = 3 ∧ Ly = 5 ∧ 5 ≤ Lz) ∨ (Lx = 4 ∧ Ly = 4 ∧ 5 ≤ Lz) ∨ (4 ≤ Lx ∧ Ly = 4 ∧ Lz = 5) ∨
+  (Lx = 4 ∧ 5 ≤ Ly ∧ Lz = 4) ∨ (5 ≤ Lx ∧ Ly = 5 ∧ Lz = 4)
+
+instance (Lx Ly Lz : Nat) : Decidable (Covered Lx Ly Lz) := by unfold Covered; infer_instance
+
+/-- the regimes cover exactly the sizes of the family that are not deficient -/
+theorem covered_iff {Lx Ly Lz : Nat} (h : Family Lx Ly Lz) :
+    Covered Lx Ly Lz ↔ ¬ Deficient Lx Ly Lz := by
+  unfold Family at h
+  constructor
+  · intro hc
+    unfold Covered NoHole at hc
+    unfold Deficient
+    rcases hc with (hc | hc | hc | hc | hc | hc) | hc | hc | hc | hc | hc | hc | hc | hc <;> omega
+  · intro hd
+    unfold Deficient at hd
+    unfold Covered NoHole
+    by_cases a1 : Lx ≤ 2
+    · exact Or.inl (Or.inl a1)
+    by_cases a2 : Ly ≤ 3
+    · exact Or.inl (Or.inr (Or.inl a2))
+    by_cases a3 : Lz ≤ 3
+    · exact Or.inl (Or.inr (Or.inr (Or.inl a3)))
+    by_cases b1 : Lx = 3
+    · by_cases b2 : Ly = 4
+      · exact Or.inl (Or.inr (Or.inr (Or.inr (Or.inl ⟨b1, b2⟩))))
+      by_cases b3 : Lz = 4
+      · exact Or.inl (Or.inr (Or.inr (Or.inr (Or.inr (Or.inl ⟨b1, b3⟩)))))
+      by_cases b4 : Lz = 5
+      · exact Or.inr (Or.inr (Or.inl ⟨b1, by omega, b4⟩))
+      · exact Or.inr (Or.inr (Or.inr (Or.inr (Or.inl ⟨b1, by omega, by omega⟩))))
+    by_cases c1 : Ly = 4
+    · by_cases c2 : Lz = 4
+      · exact Or.inl (Or.inr (Or.inr (Or.inr (Or.inr (Or.inr ⟨c1, c2⟩)))))
+      by_cases c3 : Lz = 5
+      · exact Or.inr (Or.inr (Or.inr (Or.inr (Or.inr (Or.inr (Or.inl ⟨by omega, c1, c3⟩))))))
+      · exact Or.inr (Or.inr (Or.inr (Or.inr (Or.inr (Or.inl ⟨by omega, c1, by omega⟩)))))
+    by_cases d1 : Lz = 4
+    · by_cases d2 : Lx = 4
+      · exact Or.inr (Or.inr (Or.inr (Or.inr (Or.inr (Or.inr (Or.inr (Or.inl ⟨d2, by omega, d1⟩)))))))
+      · exact Or.inr (Or.inr (Or.inr (Or.inr (Or.inr (Or.inr (Or.inr (Or.inr
+          ⟨by omega, by omega, d1⟩)))))))
+    · exact Or.inr (Or.inl ⟨by omega, by omega, by omega⟩)
+
+/-- the family has exactly `n − k = n − 1` members: EVERY size of the family that is not deficient -/
+theorem generators_count (Lx Ly Lz : Nat) (h : Family Lx Ly Lz) (hd : ¬ Deficient Lx Ly Lz) :
+    (rankFamily Lx Ly Lz).length + (lattice Lx Ly Lz).toCodeData.k = (lattice Lx Ly Lz).toCodeData.n := by
+  show (rankFamily Lx Ly Lz).length + 1 = (qubits Lx Ly Lz).length
+  have hc := (covered_iff h).mpr hd
+  obtain ⟨hx, hy, hz⟩ := h
+  rcases hc with hc | ⟨h1, h2, h3⟩ | ⟨e1, h2, e3⟩ | ⟨e1, e2, h3⟩ | ⟨e1, e2, h3'⟩ | ⟨e1, e2, h3⟩ |
+    ⟨h1, e2, e3⟩ | ⟨e1, h2, e3⟩ | ⟨h1, e2, e3⟩
+  · exact noHole_count hc hx hy (by omega)
+  · exact thick_count h1 h2 h3
+  · rw [e1, e3]; exact count_3_L_5 Ly h2
+  · rw [e1, e2]; exact count_3_4_L Lz h3
+  · rw [e1, e2]; exact count_3_5_L Lz h3'
+  · rw [e1, e2]; exact count_4_4_L Lz h3
+  · rw [e2, e3]; exact count_L_4_5 Lx h1
+  · rw [e1, e3]; exact count_4_L_4 Ly h2
+  · rw [e2, e3]; exact count_L_5_4 Lx h1
+
+/-- the number of cubes (every size): the cubes of the checkerboard in the box `Lx × (Ly+1) × (Lz−1)`
+    (rounded up) minus those with all eight corners in the hole (the box
+    `(Lx−4) × (Ly−5) × (Lz−5)`, rounded down) -/
+theorem n_cubes (Lx Ly Lz : Nat) :
+    (cubes Lx Ly Lz).length + (Lx - 4) * ((Ly - 5) * (Lz - 5)) / 2 =
+      (Lx * ((Ly + 1) * (Lz - 1)) + 1) / 2 := by
+  have := cubes_count Lx Ly Lz
+  unfold Rhombic.half at this
+  simpa using this
+
+/-- the number of vertices in the hole and next to it where triangles are missing: `abc + ab + ac + bc`
+    for a hole of `a × b × c = (Lx−3) × (Ly−4) × (Lz−4)` vertices (`0` without hole) -/
+def holeTerm (Lx Ly Lz : Nat) : Nat :=
+  if 3 ≤ Lx ∧ 4 ≤ Ly ∧ 4 ≤ Lz then
+    (Lx - 3) * (Ly - 4) * (Lz - 4) + (Ly - 4) * (Lz - 4) + (Lx - 3) * (Lz - 4) + (Lx - 3) * (Ly - 4)
+  else 0
+
+/-- the number of listed triangles (every size of the family): `4(Lx−1)(Ly−1)Lz` as for
+    `RhombicPlanarCode`, minus four per vertex in the hole and two per vertex next to it, on each of
+    its six faces, i.e. `4(abc + ab + ac + bc)` -/
+theorem n_triangles (Lx Ly Lz : Nat) (h : Family Lx Ly Lz) :
+    (triangles Lx Ly Lz).length + 4 * holeTerm Lx Ly Lz = 4 * ((Lx - 1) * (Ly - 1) * Lz) := by
+  obtain ⟨hx, hy, hz⟩ := h
+  unfold holeTerm
+  by_cases hh : 3 ≤ Lx ∧ 4 ≤ Ly ∧ 4 ≤ Lz
+  · rw [if_pos hh]
+    exact triangles_count_hole hh.1 hh.2.1 hh.2.2
+  · rw [if_neg hh, Nat.mul_zero, Nat.add_zero]
+    exact triangles_count_noHole (by omega) hx hy
+
+/-- `n_stabilizers` in closed form (every size of the family): the cubes of `n_cubes` and the
+    triangles of `n_triangles` -/
+theorem n_stabilizers (Lx Ly Lz : Nat) (h : Family Lx Ly Lz) :
+    (lattice Lx Ly Lz).toCodeData.stabs.length + (Lx - 4) * ((Ly - 5) * (Lz - 5)) / 2 +
+      4 * holeTerm Lx Ly Lz =
+    (Lx * ((Ly + 1) * (Lz - 1)) + 1) / 2 + 4 * ((Lx - 1) * (Ly - 1) * Lz) := by
+  have h1 := n_cubes Lx Ly Lz
+  have h2 := n_triangles Lx Ly Lz h
+  show (cubes Lx Ly Lz ++ triangles Lx Ly Lz).length + _ + _ = _
+  rw [List.length_append]
+  omega
+
+/-- THE C01 STATEMENT, POSITIVE SIDE, EVERY NON-DEFICIENT SIZE of the supported family: the matrices
+    that `stabilizer_matrix`, `logicals_x`, `logicals_z` of the generic code model assemble from this
+    lattice model form a valid `[[n, 1]]` stabilizer code — generators pairwise commute, logicals
+    commute with the generators, `ω(X, Z) = 1`, `ω(X, X) = ω(Z, Z) = 0`, and the generators have GF(2)
+    rank `n − 1` (`n` as in `n_formula`) -/
+theorem valid_code (Lx Ly Lz : Nat) (h : Family Lx Ly Lz) (hd : ¬ Deficient Lx Ly Lz) :
+    stabilizerMatrix (lattice Lx Ly Lz).toCodeData = some (lattice Lx Ly Lz).rowsH ∧
+    logicalsX (lattice Lx Ly Lz).toCodeData = some (lattice Lx Ly Lz).rowsX ∧
+    logicalsZ (lattice Lx Ly Lz).toCodeData = some (lattice Lx Ly Lz).rowsZ ∧
+    ValidCodeL (lattice Lx Ly Lz).toCodeData.n 1
+      (lattice Lx Ly Lz).rowsH (lattice Lx Ly Lz).rowsX (lattice Lx Ly Lz).rowsZ :=
+  Lat2D.validCode_of_lattice_subset (lattice Lx Ly Lz) (wf Lx Ly Lz h) (commPair Lx Ly Lz h)
+    (rankFamily Lx Ly Lz) (nodup_rankFamily Lx Ly Lz) (fun _ hs => rankFamily_sub hs)
+    (generators_independent Lx Ly Lz (by unfold Family at h; omega))
+    (generators_count Lx Ly Lz h hd)
+
+/-- THE EXACT CHARACTERISATION: a size of the supported family is a valid `[[n, 1]]` code iff it is not
+    deficient -/
+theorem valid_iff_not_deficient (Lx Ly Lz : Nat) (h : Family Lx Ly Lz) :
+    ValidCodeL (lattice Lx Ly Lz).toCodeData.n 1
+      (lattice Lx Ly Lz).rowsH (lattice Lx Ly Lz).rowsX (lattice Lx Ly Lz).rowsZ ↔
+    ¬ Deficient Lx Ly Lz :=
+  ⟨fun hv hd => (deficient_not_valid Lx Ly Lz hd).2.2 hv,
+    fun hd => (valid_code Lx Ly Lz h hd).2.2.2⟩
+
+/-- the GF(2) rank of the generators is `n − 1` iff the size is not deficient -/
+theorem rank_iff_not_deficient (Lx Ly Lz : Nat) (h : Family Lx Ly Lz) :
+    HasRank (2 * (lattice Lx Ly Lz).toCodeData.n) (lattice Lx Ly Lz).rowsH
+      ((lattice Lx Ly Lz).toCodeData.n - 1) ↔ ¬ Deficient Lx Ly Lz := by
+  constructor
+  · intro hr hd
+    have := (deficient_not_valid Lx Ly Lz hd).2.1 _ hr
+    have hn : 2 ≤ (lattice Lx Ly Lz).toCodeData.n := by
+      have h2 := (deficient_not_valid Lx Ly Lz hd).2.1 _ hr
+      omega
+    omega
+  · intro hd
+    exact (valid_code Lx Ly Lz h hd).2.2.2.rank
+
 /-! ### non-vacuity -/
 
 example : Family 2 2 3 := by decide
@@ -246,6 +458,8 @@ example : getDeformation "Checkerboard XZZX" [2, 0, 1] = DeformResult.map PauliM
 example : getDeformation "Checkerboard XZZX" [1, 0, 0] = DeformResult.map PauliMap.id := by decide
 example : getDeformation "Checkerboard XZZX" [1, 1, 1] = DeformResult.valueError := by decide
 example : getDeformation "XZZX" [1, 0, 0] = DeformResult.valueError := by decide
+example : Deficient 3 6 6 ∧ Deficient 7 4 9 ∧ Deficient 5 6 4 ∧ ¬ Deficient 4 6 6 ∧ ¬ Deficient 3 5 9 ∧
+    ¬ Deficient 4 4 9 ∧ ¬ Deficient 4 9 4 ∧ ¬ Deficient 3 6 5 := by decide
 example : RankDeficient (lattice 3 7 9) := (thin_hole_family_x 7 9 (by decide) (by decide)).2
 example : RankDeficient (lattice 6 4 6) := (thin_hole_family_y 6 6 (by decide) (by decide)).2
 set_option maxRecDepth 100000 in
@@ -254,5 +468,24 @@ example : (lattice 2 2 3).getStab [0, 2, 0, 0] = [([3, 0, 0], .Z), ([2, 1, 0], .
 set_option maxRecDepth 100000 in
 example : (lattice 2 2 3).getStab [1, -1, 1] = [([2, 0, 1], .X), ([1, 0, 2], .X), ([1, 0, 0], .X)] := by
   decide
+
+example : Covered 2 2 3 ∧ Covered 7 3 9 ∧ Covered 4 5 5 ∧ Covered 6 9 8 ∧ Covered 3 5 5 ∧ Covered 4 4 9 ∧
+    Covered 3 9 4 ∧ Covered 9 4 4 ∧ Covered 3 9 5 ∧ Covered 3 5 11 ∧ Covered 4 9 4 ∧ Covered 9 5 4 ∧
+    ¬ Covered 3 6 6 ∧ ¬ Covered 5 6 4 := by
+  decide
+/-- a size with a thick hole: 520 qubits, rank 519 -/
+example : HasRank (2 * (lattice 6 5 8).toCodeData.n) (lattice 6 5 8).rowsH
+    ((lattice 6 5 8).toCodeData.n - 1) ∧ (lattice 6 5 8).toCodeData.n = 520 :=
+  ⟨(valid_code 6 5 8 (by decide) (by decide)).2.2.2.rank,
+    by have := n_formula 6 5 8; omega⟩
+example : Lat2D.IndepGenerators (lattice 3 6 6) (rankFamily 3 6 6) :=
+  generators_independent 3 6 6 (by decide)
+example : (cubes 5 6 7).length = 104 := by have := n_cubes 5 6 7; omega
+/-- `(5, 6, 7)`: 104 cubes and 448 triangles -/
+example : (lattice 5 6 7).toCodeData.stabs.length = 552 := by
+  have := n_stabilizers 5 6 7 (by decide)
+  have e : holeTerm 5 6 7 = 28 := by decide
+  rw [e] at this
+  omega
 
 end Panqec.C01HollowRhombicCode
